@@ -296,7 +296,15 @@ impl<'tcx> Cx<'tcx> {
                 self.operand(owner, body, o),
                 esc(&format!("{}", n))
             ),
-            Rvalue::Discriminant(p) => format!("{{\"k\":\"discr\",\"place\":{}}}", self.place(body, p)),
+            Rvalue::Discriminant(p) => {
+                // number of variants of the discriminated enum: lets the reader turn an `otherwise` edge of a
+                // two-variant enum (`if let Some(..) = x {..} else {..}`) into the one remaining variant
+                let nv = match p.ty(body, self.tcx).ty.kind() {
+                    ty::Adt(adt, _) if adt.is_enum() => adt.variants().len() as i64,
+                    _ => -1,
+                };
+                format!("{{\"k\":\"discr\",\"place\":{},\"nvariants\":{}}}", self.place(body, p), nv)
+            }
             Rvalue::CopyForDeref(p) => format!("{{\"k\":\"use\",\"op\":{{\"k\":\"copy\",\"place\":{}}}}}", self.place(body, p)),
             other => format!("{{\"k\":\"other\",\"dbg\":{}}}", esc(&format!("{:?}", other))),
         }
